@@ -121,6 +121,16 @@ func parseSCPSSH(raw string, kind Kind) (*URL, error) {
 		return nil, errors.New("no hostname present")
 	}
 
+	// Reject usernames and hostnames that begin with a dash. These components
+	// are passed to SSH as command line arguments of their own, where they
+	// would be read as options, and URL validation rejects them for that
+	// reason, so we don't want to produce URLs containing them.
+	if username != "" && username[0] == '-' {
+		return nil, errors.New("username begins with a dash")
+	} else if hostname[0] == '-' {
+		return nil, errors.New("hostname begins with a dash")
+	}
+
 	// Parse off the port. This is not a standard SCP URL syntax (and even Git
 	// makes you use full SSH URLs if you want to specify a port), so we invent
 	// our own rules here, but essentially we just scan until the next colon,
